@@ -3382,8 +3382,9 @@ AUTHOR
 int32
 HMCPcloseAID(accrec_t *access_rec /* IN:  access record of file to close */)
 {
-    chunkinfo_t *info      = NULL; /* special information record */
-    int32        ret_value = SUCCEED;
+    chunkinfo_t *info       = NULL;  /* special information record */
+    int          sync_failed = FALSE; /* a cached chunk could not be written */
+    int32        ret_value  = SUCCEED;
 
     /* check args */
     info = (chunkinfo_t *)access_rec->special_info;
@@ -3395,7 +3396,8 @@ HMCPcloseAID(accrec_t *access_rec /* IN:  access record of file to close */)
     if (--(info->attached) == 0) {
         if (info->chk_cache != NULL) {
             /* Sync chunk cache */
-            mcache_sync(info->chk_cache);
+            if (mcache_sync(info->chk_cache) != RET_SUCCESS)
+                sync_failed = TRUE; /* everything is still released, the caller is told below */
 #ifdef STATISTICS
             /* cache statistics if 'mcache.c' complied with -DSTATISTICS */
             mcache_stat(info->chk_cache);
@@ -3431,6 +3433,10 @@ HMCPcloseAID(accrec_t *access_rec /* IN:  access record of file to close */)
 
         free(info);
         access_rec->special_info = NULL;
+
+        /* chunks which did not reach the file are lost */
+        if (sync_failed)
+            HGOTO_ERROR(DFE_WRITEERROR, FAIL);
     } /* attached to info */
 
 done:
@@ -3454,8 +3460,9 @@ AUTHOR
 static int
 HMCPendaccess(accrec_t *access_rec /* IN:  access record to close */)
 {
-    filerec_t *file_rec  = NULL; /* file record */
-    int        ret_value = SUCCEED;
+    filerec_t *file_rec     = NULL;  /* file record */
+    int        close_failed = FALSE; /* the special information could not be flushed */
+    int        ret_value    = SUCCEED;
 
     /* validate argument */
     if (access_rec == NULL)
@@ -3467,9 +3474,11 @@ HMCPendaccess(accrec_t *access_rec /* IN:  access record to close */)
         HGOTO_ERROR(DFE_ARGS, FAIL);
 
     /* detach the special information record.
-       If no more references to that, free the record */
+       If no more references to that, free the record.  A failure is
+       reported once the element has been let go of all the same (the file
+       could not be closed otherwise) */
     if (HMCPcloseAID(access_rec) == FAIL)
-        HGOTO_ERROR(DFE_CANTCLOSE, FAIL);
+        close_failed = TRUE;
 
     /* update file and access records */
     if (HTPendaccess(access_rec->ddid) == FAIL)
@@ -3480,6 +3489,11 @@ HMCPendaccess(accrec_t *access_rec /* IN:  access record to close */)
 
     /* free the access record */
     HIrelease_accrec_node(access_rec);
+
+    if (close_failed) {
+        access_rec = NULL; /* released already */
+        HGOTO_ERROR(DFE_CANTCLOSE, FAIL);
+    }
 
 done:
     if (ret_value == FAIL) { /* Error condition cleanup */
